@@ -85,6 +85,24 @@ impl ExternalPersistHelper {
         final(self).shared_secret == old(self).shared_secret,
 //@end
 
+//@fn vls-core/src/persist/mod.rs :: impl ExternalPersistHelper :: new props=C17
+    ensures r.shared_secret == shared_secret, r.last_nonce@ == Seq::new(32, |i: int| 0u8),          //[C17.helper.new-keeps-the-secret]
+//@end
+
+//@fn vls-core/src/persist/mod.rs :: impl ExternalPersistHelper :: client_hmac props=C17
+    ensures
+        // the client tag is the shared MAC under the one-byte role nonce 0x01 ...
+        r@ == hmac_sha256(self.shared_secret@, framing(self.shared_secret@, seq![1u8], recs_of(*kvs))),   //[C17.client-hmac.role-nonce-01]
+//@sub /&\[0x01\]/ => vx_role_nonce(0x01).as_slice()
+//@end
+
+//@fn vls-core/src/persist/mod.rs :: impl ExternalPersistHelper :: server_hmac props=C17
+    ensures
+        // ... and the server tag under 0x02: a tag made for one role is not the other role's tag of the same data
+        r@ == hmac_sha256(self.shared_secret@, framing(self.shared_secret@, seq![2u8], recs_of(*kvs))),   //[C17.server-hmac.role-nonce-02]
+//@sub /&\[0x02\]/ => vx_role_nonce(0x02).as_slice()
+//@end
+
 //@fn vls-core/src/persist/mod.rs :: impl ExternalPersistHelper :: check_hmac props=C17
     ensures
         // a read response is accepted only if it authenticates under the nonce of the last request
@@ -95,6 +113,9 @@ impl ExternalPersistHelper {
 // client_hmac / server_hmac (one-byte role nonces 0x01 / 0x02 through the same compute_shared_hmac) are not under contract
 
 } // impl
+
+#[verifier::external_body]
+pub fn vx_role_nonce(b: u8) -> (r: Vec<u8>) ensures r@ == seq![b] { vec![b] }
 
 #[verifier::external_body]
 pub fn vx_vec_eq_arr(a: &Vec<u8>, b: &[u8; 32]) -> (r: bool)
